@@ -16,6 +16,16 @@ RULE = ('random histories of make / make_sequence / save (all kinds) / matrix_it
         'previously returned matrices before/after; re-encoding with the reported version/level/mask and boost_error=False must reproduce the matrix')
 
 
+def fresh_result(case):
+    """The answer of a fresh interpreter (empty history) for one argument set."""
+    import subprocess, sys, os
+    code = ('import sys, json; sys.path.insert(0, %r); import enc; '
+            'c = enc.undescribe(json.loads(sys.stdin.read())); print(enc.run_impl(c)[0])' % os.path.dirname(os.path.dirname(os.path.abspath(__file__))))
+    r = subprocess.run([sys.executable, '-c', code], input=json.dumps(enc.describe(case)), capture_output=True, text=True,
+                       env=dict(os.environ, PYTHONPATH='/repo', PYTHONHASHSEED='0'), timeout=120)
+    return r.stdout.strip()
+
+
 def snapshot_tables():
     h = hashlib.sha256()
     for mod in (consts, encoder, writers, utils):
@@ -45,6 +55,16 @@ def run(ctx):
         c = enc.random_case(rng, max_len=40)
         if enc.representable(c):
             pool.append(c)
+    # directed: multi-part contents whose parts merge, the same parts alone, and repetitions (shared / cached state between calls shows here)
+    fam = []
+    for parts in (['123', '456'], ['AB', 'CD'], ['abc', 'def'], [b'\x01\x02', b'\x03'], ['123456', '789'], ['点', '漢'], [12, 34], ['123', '456', 'AB', 'CD']):
+        for kw in ({}, {'error': 'M'}, {'micro': False}):
+            fam.append(dict(content=list(parts), **kw))
+            for x in parts:
+                fam.append(dict(content=x, **kw))
+            fam.append(dict(content=list(parts), **kw))
+    pool = fam + pool
+    n_pool = len(pool)
     model = common.oracle_parallel([enc.request(c) for c in pool], chunk=10)
     tables0 = snapshot_tables()
     args0 = copy.deepcopy(pool)
@@ -54,18 +74,30 @@ def run(ctx):
     kinds = ['svg', 'png', 'eps', 'pdf', 'txt', 'pbm', 'pam', 'ppm', 'xpm', 'xbm', 'tex', 'ans']
     # ---- history 1: random interleaving of operations
     steps = 1500 if ctx.thorough else 400
-    for step in range(steps):
-        i = rng.randrange(n_pool)
-        op = rng.choice(['make', 'make', 'save', 'iter', 'terminal', 'seq'])
+    for step in range(steps + len(fam)):
+        if step < len(fam):
+            i, op = step, 'make'
+        else:
+            i = rng.randrange(n_pool)
+            op = rng.choice(['make', 'make', 'save', 'iter', 'terminal', 'seq'])
         c = pool[i]
         if op == 'make' or i not in first:
+            if i in first and step >= len(fam) and False:
+                pass
             s, code = enc.run_impl(c)
             n += 1
             if i in first and first[i] != s:
                 failures.append({'input': {'case': enc.describe(c), 'step': step}, 'observed': s[:80], 'expected': 'same as first call: ' + first[i][:80]})
             first.setdefault(i, s)
             if s != model[i]:
-                corr.append({'case': enc.describe(c), 'impl': s[:100], 'model': model[i][:100]})
+                fr = fresh_result(c)
+                if fr != s:
+                    # the same arguments give a different answer in a fresh interpreter: the result depends on the call history
+                    failures.append({'input': {'case': enc.describe(c), 'step': step,
+                                               'history': [enc.describe(pool[j]) for j in (range(step) if step < len(fam) else [])][-6:]},
+                                     'observed': s[:80], 'expected': 'answer of a fresh interpreter for the same arguments: ' + fr[:80]})
+                else:
+                    corr.append({'case': enc.describe(c), 'impl': s[:100], 'model': model[i][:100]})
             if code is not None and len(kept) < 60:
                 kept.append((i, code, [bytes(r) for r in code.matrix]))
         elif kept:
